@@ -26,7 +26,7 @@ def log(*a):
 def build_unit(unit, repo, variant=None):
     tpath = os.path.join(VERIF, "units", unit + ".vrs")
     text = open(tpath, encoding="utf-8").read()
-    g = gen.generate(unit, text, repo)
+    g = gen.generate(unit, text, repo, os.path.join(VERIF, 'units'))
     os.makedirs(BUILD, exist_ok=True)
     out = os.path.join(BUILD, unit + ".rs")
     with open(out, "w", encoding="utf-8") as f:
